@@ -23,6 +23,7 @@ mod simop;
 mod c19;
 mod c13;
 mod c12;
+mod c17;
 mod scen;
 mod wirefmt;
 mod util;
@@ -105,6 +106,8 @@ fn main() {
                     "C13" => c13::generate(&mut rng, &tier, &mut emit),
                     "C03" | "C04" | "C05" => c03::generate(&mut rng, &prop, &tier, &mut emit),
                     "C12" => c12::generate(&mut rng, &tier, &mut emit),
+                    "C17" => c17::generate_c17(&mut rng, &tier, &mut emit),
+                    "C20" => c17::generate_c20(&mut rng, &tier, &mut emit),
                     "C08" => c08::generate(&mut rng, &tier, &mut emit),
                     "C16" => c16::generate(&mut rng, &tier, &mut emit),
                     "C18" => c18::generate(&mut rng, &tier, &mut emit),
